@@ -693,16 +693,21 @@ func (c *Ctx) snapshotRule(rule string, ls *Locksets, lock string) *ssa.Call {
 			r.Funcs[c.FuncKey(callee)] = true
 			// appends happen under the lock
 			okL, nApp := true, 0
-			funcInstrs(callee, func(in ssa.Instruction) {
-				if cc := callOf(in); cc != nil {
-					if b, isB := cc.Value.(*ssa.Builtin); isB && b.Name() == "append" {
-						nApp++
-						if ls.Held(in, lock) == 0 {
-							okL = false
+			builders := c.Closure([]*ssa.Function{callee}, func(from *ssa.Function, e Edge) bool {
+				return !e.Site.Common().IsInvoke() && e.Kind != EdgeGo && e.Callee.Package() == c.Client
+			})
+			for _, bf := range builders.Order {
+				funcInstrs(bf, func(in ssa.Instruction) {
+					if cc := callOf(in); cc != nil {
+						if b, isB := cc.Value.(*ssa.Builtin); isB && b.Name() == "append" {
+							nApp++
+							if ls.Held(in, lock) == 0 {
+								okL = false
+							}
 						}
 					}
-				}
-			})
+				})
+			}
 			r.Add(rule, "snapshot-under-lock", c.Pos(callee.Pos()), c.FuncKey(callee), "the snapshot is filled while the set's lock is held", okL && nApp > 0, fmt.Sprintf("%d appends", nApp))
 		}
 	}
